@@ -5,6 +5,12 @@ import socket
 from pv.core import Fail
 
 
+def _note(n):
+    from pv import core
+
+    core.note_input(n)
+
+
 class HardStop(BaseException):
     """raised when the code under test keeps calling the stream far beyond the call budget
     (BaseException so that a broad `except Exception` in mutated code cannot swallow it)"""
@@ -24,6 +30,7 @@ class ScriptedStream:
         self.data = data
         self.script = list(script)
         self.pos = 0
+        _note(len(data) + 16 * len(self.script) + 16)
         self.calls = 0
         self.log = []
         self.budget = len(data) + len(self.script) + slack
@@ -86,6 +93,7 @@ class ScriptedSocket(socket.socket):
         super().__init__(socket.AF_INET, socket.SOCK_STREAM)
         self.events = list(events)
         self.handed = bytearray()  # everything recv() has returned so far
+        _note(sum(len(e) if isinstance(e, (bytes, bytearray)) else 16 for e in self.events) + 16)
         self.log = []  # (requested, outcome)
         self.closed_by_peer = False
         self.calls = 0
@@ -94,6 +102,7 @@ class ScriptedSocket(socket.socket):
 
     def push(self, ev):
         self.events.append(ev)
+        _note(len(ev) if isinstance(ev, (bytes, bytearray)) else 16)
 
     def recv(self, n, flags=0):  # pylint: disable=arguments-differ
         self.calls += 1
@@ -160,6 +169,7 @@ class BudgetBytesIO(io.BytesIO):
 
     def __init__(self, data, slack=64):
         super().__init__(data)
+        _note(len(data) + 16)
         self._calls = 0
         self._budget = len(data) + slack
 
